@@ -586,9 +586,13 @@ func fieldMap(mappings []*FieldMapping, allowMapKeyNotFound bool) func(any) (map
 
 			var (
 				pathInputValue = inputValue
-				pathInputType  = inputValue.Type()
+				pathInputType  reflect.Type
 				taken          = input
 			)
+			if inputValue.IsValid() {
+				// a predecessor of an interface type may hand over nil: takeOne then reports that there is nothing to take the field from
+				pathInputType = inputValue.Type()
+			}
 
 			for i, path := range fromPath {
 				taken, pathInputType, err = takeOne(pathInputValue, pathInputType, path)
